@@ -788,6 +788,24 @@ pub fn micro_non_ascii(tier: Tier) -> Scenario {
     s
 }
 
+/// (round 7) the session after a password handshake is an ordinary session too: `password` is a request like
+/// any other as far as "one request outstanding" goes
+pub fn micro_password(tier: Tier) -> Scenario {
+    let mut s = micro(tier);
+    s.name = "micro-1-caller-1-notification+password-handshake".into();
+    s.connect = ConnectMode::Password("pw x".into());
+    s.server.password = Some("pw x".into());
+    s
+}
+
+/// (round 7) a request far larger than any buffer or server-side list limit the library might know about: a typed
+/// list of 180 000 commands (2.3 MB on the wire) is still one request, answered by one reply
+pub fn huge_list(_tier: Tier) -> Scenario {
+    let mut s = Scenario::new("huge-typed-list-180000", vec![CallerProg { ops: vec![Op::ProbeVec((0..180_000u32).map(|i| 100_000 + i).collect()), Op::Raw("cmd A2".into())], pipeline: false }, caller(vec![Op::Raw("cmd B1".into())])]);
+    s.max_steps = 60;
+    s
+}
+
 pub fn micro2(_tier: Tier) -> Scenario {
     let mut s = Scenario::new("micro-2-requests-2-notifications", vec![caller(vec![Op::Raw("cmd A1".into()), Op::Raw("cmd A2".into())])]);
     s.notify_names = vec!["player", "mixer"];
@@ -1118,7 +1136,7 @@ pub fn find_scenario_any(name: &str) -> Option<Scenario> {
 }
 
 fn find_scenario(name: &str, tier: Tier) -> Option<Scenario> {
-    let mut all = vec![s1(tier), s1p(tier), s2(tier), s3(tier), micro(tier), micro2(tier), s4(tier), micro_fault(tier), s5(tier), micro_ticks(tier), micro_stall(tier), micro_cancel(tier), s6(tier), s4c(tier), idle_refused(tier), art_fault(tier), early_fault(tier), micro_non_ascii(tier)];
+    let mut all = vec![s1(tier), s1p(tier), s2(tier), s3(tier), micro(tier), micro2(tier), s4(tier), micro_fault(tier), s5(tier), micro_ticks(tier), micro_stall(tier), micro_cancel(tier), s6(tier), s4c(tier), idle_refused(tier), art_fault(tier), early_fault(tier), micro_non_ascii(tier), micro_password(tier), huge_list(tier)];
     for base in [micro(Tier::Quick), micro2(Tier::Quick)] {
         let mut e = base.clone();
         e.split_menu = SplitMenu::Lines;
@@ -1407,6 +1425,8 @@ pub fn run_c05(tier: Tier) -> i32 {
         Plan { scn: with_handle_drop(micro(tier)), bound: 99 },
         Plan { scn: with_handle_drop(s1(tier)), bound: tier.pick(3, 4) },
         Plan { scn: micro_stall(tier), bound: tier.pick(4, 5) },
+        Plan { scn: micro_password(tier), bound: tier.pick(4, 6) },
+        Plan { scn: huge_list(tier), bound: 0 },
     ];
     let (cov, viol) = run_plans(
         &ctx,
